@@ -87,7 +87,7 @@ def check_guards(facts, chk, rule='C01.guard'):
     reads = [(b.idx, b.term) for b in build.blocks if b.idx in build.live_blocks() and b.term.k == 'assert' and b.term.msg == 'BoundsCheck'
              and 'seq' in show(eb.operand(b.term.msg_ops[0]))]
     chk.floor(rule, 'end-of-record guards in build', len(guards), 2)
-    chk.floor(rule, 'guarded sequence reads in build', len(reads), 2)
+    chk.floor(rule, 'guarded sequence reads in build', len(reads), 1)      # hoisting seq[i + idx] into a local leaves one read
     # loop bound i < k
     heads = [b.idx for b in build.blocks if b.idx in build.live_blocks() and b.term.k == 'switch' and
              eb.operand(b.term.discr)[0] == 'bin' and eb.operand(b.term.discr)[1] == 'Lt' and build.in_cycle(b.idx) and
@@ -526,6 +526,10 @@ def check_report(facts, chk):
 
 
 def run(facts, chk, tier, only=None):
+    from . import cli_e2e
+    # the subcommand through ska::main() itself (argument parser replaced by a constructed Args value): hand-over of CLI values, width dispatch
+    chk.guard('C01.cli', 'C01.cli:run0', lambda: cli_e2e.check_build(facts, chk, 'C01.cli', tier))
+    chk.guard('C01.cli', 'C01.cli:run1', lambda: cli_e2e.check_nk_distance(facts, chk, 'C01.cli', tier, 'nk'))
     from . import nk_e2e
     chk.guard('C01.e2e', 'C01.e2e:run', lambda: nk_e2e.check_nk_e2e(facts, chk, 'C01.e2e', tier))
     from . import skiter
